@@ -353,3 +353,63 @@ func (w *World) someDefMentions(f *Fn, e ast.Expr, obj types.Object) bool {
 func excuseErrIsNilFalse(w *World) Excuse {
 	return Excuse{Cond: func(e ast.Expr) bool { return w.errNonNil(e, false) }, Val: false}
 }
+
+// errIsFatal: every non-nil error returned by call stops the enclosing function from
+// succeeding. Accepted idioms: the call is the argument of y.Check / y.Check2; the call is a
+// return operand; or its result is bound to a variable that is tested by exactly `v != nil`
+// (no further conjunct that could excuse some errors) in an if whose body terminates
+// (return, panic, y.Check(v)).
+func (w *World) errIsFatal(f *Fn, call *ast.CallExpr) bool {
+	isCheck := func(c *ast.CallExpr) bool {
+		fn, ok := w.Callee(c).(*types.Func)
+		return ok && fn.Pkg() != nil && fn.Pkg().Path() == modPath+"/y" && (fn.Name() == "Check" || fn.Name() == "Check2")
+	}
+	switch p := w.parentOf(call).(type) {
+	case *ast.CallExpr:
+		return isCheck(p)
+	case *ast.ReturnStmt:
+		return true
+	case *ast.AssignStmt:
+		var errVar *types.Var
+		for _, l := range p.Lhs {
+			if id, ok := l.(*ast.Ident); ok {
+				if v, ok := w.Use(id).(*types.Var); ok && isErrorType(v.Type()) {
+					errVar = v
+				}
+			}
+		}
+		if errVar == nil {
+			return false // result discarded (e.g. `_ =`)
+		}
+		// the if statement: either p is its Init, or it follows p
+		var is *ast.IfStmt
+		if x, ok := w.parentOf(p).(*ast.IfStmt); ok && x.Init == ast.Stmt(p) {
+			is = x
+		} else if list, i := w.stmtListOf(p); i >= 0 && i+1 < len(list) {
+			is, _ = list[i+1].(*ast.IfStmt)
+		}
+		if is == nil {
+			return false
+		}
+		be, ok := unparen(is.Cond).(*ast.BinaryExpr)
+		if !ok || be.Op != token.NEQ || !isNil(be.Y) {
+			return false
+		}
+		id, ok := unparen(be.X).(*ast.Ident)
+		if !ok || w.Use(id) != types.Object(errVar) {
+			return false
+		}
+		if w.terminates(is.Body.List) {
+			return true
+		}
+		// body ends in y.Check(err)
+		if n := len(is.Body.List); n > 0 {
+			if es, ok := is.Body.List[n-1].(*ast.ExprStmt); ok {
+				if c, ok := es.X.(*ast.CallExpr); ok && isCheck(c) {
+					return true
+				}
+			}
+		}
+	}
+	return false
+}
